@@ -154,6 +154,13 @@ var pinnedCastRows = []string{
 	"services.*.volumes.[].read_only", "services.*.volumes.[].volume.nocopy", "volumes.*.external",
 }
 
+// Props/C08.lean `notInSchema` (minus the `single` pseudo fields, which the enumeration here folds into `ulimits.*`)
+var notInSchemaPaths = []string{
+	"services.*.deploy.resources.limits.devices.[].count",
+	"services.*.deploy.resources.limits.generic_resources.[].discrete_resource_spec.value",
+	"services.*.deploy.resources.reservations.pids",
+}
+
 func isPinned(pat string) bool {
 	for _, p := range pinnedCastRows {
 		if p == pat {
@@ -179,7 +186,10 @@ func typedLeaves() map[string]string {
 			out[path] = "bytes"
 			return
 		case reflect.TypeOf(types.NanoCPUs(0)):
-			out[path] = "float"
+			out[path] = "nanocpus" // custom decoder (types/cpus.go): texts of kind float
+			return
+		case reflect.TypeOf(types.DeviceCount(0)):
+			out[path] = "devicecount" // custom decoder (types/device.go): texts of kind int
 			return
 		}
 		switch t.Kind() {
@@ -382,6 +392,11 @@ var typedTexts = map[string][]typedText{
 		{"abc", false}, {"10x", false}, {"", false}, {"m", false}, {"1 0", false}},
 }
 
+func init() {
+	typedTexts["nanocpus"] = typedTexts["float"]
+	typedTexts["devicecount"] = typedTexts["int"]
+}
+
 type typedArgs struct {
 	Pat   string `json:"pat"`
 	Kind  string `json:"kind"`
@@ -535,6 +550,13 @@ func judgeTyped(args, real, _ json.RawMessage) *core.Verdict {
 	}
 	tc := textClass(a.Kind, a.Text)
 	where := fmt.Sprintf("%s (%s) text %q form %s", a.Pat, a.Kind, a.Text, a.Form)
+	// (0) struct fields the Lean side lists as "not an attribute of the schema" (Props/C08.lean `notInSchema`) must indeed be
+	//     rejected when written as a literal
+	for _, np := range notInSchemaPaths {
+		if np == a.Pat && a.Valid && r.A != nil && A.isOk() {
+			return core.Fail("typed:not-in-schema-path-accepts-literal:"+a.Pat, where+": the Lean obligation typed_paths_covered exempts this path as absent from the schema, but the literal loads")
+		}
+	}
 	// (1) a variable is the same as the quoted literal, always
 	if Q.isOk() != V.isOk() {
 		return core.Fail("typed:var-vs-quoted-class:"+a.Pat, where+": quoted literal and variable differ in success")
@@ -562,6 +584,11 @@ func judgeTyped(args, real, _ json.RawMessage) *core.Verdict {
 		key := "typed:literal-vs-variable:" + a.Kind
 		if tc != "plain" {
 			key = "typed:yaml-number-syntax:" + tc
+			switch a.Kind {
+			case "nanocpus", "devicecount", "bytes":
+				// converted by the type's own DecodeMapstructure, not by the casters
+				key += ":" + a.Kind
+			}
 		} else if !converted && !Qs.isOk() {
 			key = "typed:no-conversion:" + a.Pat
 		}
